@@ -1,0 +1,238 @@
+//go:build verif
+
+// Package verifhook holds observation hooks used by external verification
+// machinery. With the "verif" build tag it appends JSON event lines to
+// $GARBLE_VERIF_LOG/<pid>.jsonl and implements env-driven failpoints.
+package verifhook
+
+import (
+	"crypto/sha256"
+	"encoding/hex"
+	"encoding/json"
+	"fmt"
+	"io"
+	mathrand "math/rand"
+	"os"
+	"path/filepath"
+	"strconv"
+	"strings"
+	"sync"
+	"syscall"
+	"time"
+	"unsafe"
+)
+
+const Enabled = true
+
+var (
+	mu      sync.Mutex
+	logFile *os.File
+	logInit bool
+	points  map[string]pointSpec
+	hits    = map[string]int{}
+)
+
+type pointSpec struct {
+	action string // sleep | kill | exit
+	arg    int
+	nth    int  // act on the nth hit in this process (0 = every hit)
+	once   bool // act only in the first process (system-wide) that gets here
+}
+
+// monotonic returns CLOCK_MONOTONIC in nanoseconds, comparable across processes.
+func monotonic() int64 {
+	var ts syscall.Timespec
+	syscall.Syscall(syscall.SYS_CLOCK_GETTIME, 1, uintptr(unsafe.Pointer(&ts)), 0)
+	return ts.Sec*1e9 + ts.Nsec
+}
+
+func logDir() string { return os.Getenv("GARBLE_VERIF_LOG") }
+
+func initLog() {
+	if logInit {
+		return
+	}
+	logInit = true
+	dir := logDir()
+	if dir == "" {
+		return
+	}
+	f, err := os.OpenFile(filepath.Join(dir, strconv.Itoa(os.Getpid())+".jsonl"), os.O_CREATE|os.O_WRONLY|os.O_APPEND, 0o666)
+	if err != nil {
+		return
+	}
+	logFile = f
+}
+
+// Event appends one JSON line; kv are alternating keys and values.
+func Event(kind string, kv ...any) {
+	if logDir() == "" {
+		return
+	}
+	mu.Lock()
+	defer mu.Unlock()
+	initLog()
+	if logFile == nil {
+		return
+	}
+	m := map[string]any{
+		"t":    monotonic(),
+		"pid":  os.Getpid(),
+		"ppid": os.Getppid(),
+		"pkg":  os.Getenv("TOOLEXEC_IMPORTPATH"),
+		"kind": kind,
+	}
+	for i := 0; i+1 < len(kv); i += 2 {
+		m[fmt.Sprint(kv[i])] = kv[i+1]
+	}
+	data, err := json.Marshal(m)
+	if err != nil {
+		return
+	}
+	logFile.Write(append(data, '\n'))
+}
+
+func parsePoints() {
+	points = map[string]pointSpec{}
+	spec := os.Getenv("GARBLE_VERIF_FAIL")
+	for _, item := range strings.Split(spec, ";") {
+		name, act, ok := strings.Cut(strings.TrimSpace(item), "=")
+		if !ok {
+			continue
+		}
+		var ps pointSpec
+		if rest, found := strings.CutSuffix(act, "!once"); found {
+			ps.once = true
+			act = rest
+		}
+		if a, n, found := strings.Cut(act, "@"); found {
+			ps.nth, _ = strconv.Atoi(n)
+			act = a
+		}
+		a, arg, _ := strings.Cut(act, ":")
+		ps.action = a
+		ps.arg, _ = strconv.Atoi(arg)
+		points[name] = ps
+	}
+}
+
+// Point is a failpoint. GARBLE_VERIF_FAIL="name=sleep:200;name2=kill;name3=exit:3@2"
+// makes the hit sleep (ms), SIGKILL its whole process group, or exit. A name may
+// be qualified as "name/import/path" to act only while handling that package.
+func Point(name string) {
+	if os.Getenv("GARBLE_VERIF_FAIL") == "" {
+		return
+	}
+	mu.Lock()
+	if points == nil {
+		parsePoints()
+	}
+	ps, ok := points[name]
+	key := name
+	if !ok {
+		key = name + "/" + os.Getenv("TOOLEXEC_IMPORTPATH")
+		ps, ok = points[key]
+	}
+	if !ok {
+		mu.Unlock()
+		return
+	}
+	hits[key]++
+	n := hits[key]
+	mu.Unlock()
+	if ps.nth != 0 && ps.nth != n {
+		return
+	}
+	if ps.once {
+		dir := logDir()
+		if dir == "" {
+			return
+		}
+		f, err := os.OpenFile(filepath.Join(dir, "once-"+strings.ReplaceAll(key, "/", "_")), os.O_CREATE|os.O_EXCL|os.O_WRONLY, 0o666)
+		if err != nil {
+			return
+		}
+		f.Close()
+	}
+	Event("point", "name", name, "action", ps.action, "arg", ps.arg)
+	switch ps.action {
+	case "sleep":
+		time.Sleep(time.Duration(ps.arg) * time.Millisecond)
+	case "kill":
+		syscall.Kill(0, syscall.SIGKILL)
+		time.Sleep(time.Hour)
+	case "exit":
+		os.Exit(ps.arg)
+	}
+}
+
+type countingSource struct {
+	src    mathrand.Source
+	draws  int64
+	digest [sha256.Size]byte
+}
+
+func (c *countingSource) fold(v int64) {
+	c.draws++
+	h := sha256.New()
+	h.Write(c.digest[:])
+	var b [8]byte
+	for i := range b {
+		b[i] = byte(v >> (8 * i))
+	}
+	h.Write(b[:])
+	h.Sum(c.digest[:0])
+}
+
+func (c *countingSource) Int63() int64 { v := c.src.Int63(); c.fold(v); return v }
+func (c *countingSource) Seed(s int64) { c.src.Seed(s) }
+func (c *countingSource) Uint64() uint64 {
+	if s64, ok := c.src.(mathrand.Source64); ok {
+		v := s64.Uint64()
+		c.fold(int64(v))
+		return v
+	}
+	return uint64(c.Int63())>>31 | uint64(c.Int63())<<32
+}
+
+var wrapped []*countingSource
+
+// WrapSource counts the draws from src and folds them into a digest,
+// reported by RandDone.
+func WrapSource(src mathrand.Source) mathrand.Source {
+	c := &countingSource{src: src}
+	mu.Lock()
+	wrapped = append(wrapped, c)
+	mu.Unlock()
+	return c
+}
+
+// RandDone reports draws and digest of all wrapped sources of this process.
+func RandDone() {
+	mu.Lock()
+	ws := append([]*countingSource(nil), wrapped...)
+	mu.Unlock()
+	for i, c := range ws {
+		Event("rand.done", "i", i, "draws", c.draws, "digest", hex.EncodeToString(c.digest[:8]))
+	}
+}
+
+// FileDigest returns "size:sha256" of a file, or "ERR:..." when unreadable.
+func FileDigest(path string) string {
+	f, err := os.Open(path)
+	if err != nil {
+		return "ERR:" + err.Error()
+	}
+	defer f.Close()
+	h := sha256.New()
+	n, _ := io.Copy(h, f)
+	return strconv.FormatInt(n, 10) + ":" + hex.EncodeToString(h.Sum(nil))
+}
+
+func Hex(b []byte) string { return hex.EncodeToString(b) }
+
+// BytesDigest returns "size:sha256prefix" of b.
+func BytesDigest(b []byte) string {
+	s := sha256.Sum256(b)
+	return strconv.Itoa(len(b)) + ":" + hex.EncodeToString(s[:12])
+}
